@@ -495,6 +495,49 @@ print(json.dumps({"violates": res["direct"] != res["over"], "observed": res, "re
 '''
 
 
+REPLAY_TRACE_REFLECTED = r'''
+import tempfile, importlib.util, os, sys, shutil
+from guppylang_internals.error import GuppyError, GuppyComptimeError
+src = """from guppylang import guppy
+from guppylang.std.builtins import owned
+from guppylang.std.quantum import qubit, discard
+@guppy.struct
+class V:
+    q: qubit
+    @guppy
+    def __add__(self: "V" @owned, other: int) -> int:
+        discard(self.q)
+        return other
+@guppy.struct
+class W:
+    q: qubit
+    @guppy
+    def __radd__(self: "W" @owned, other: V @owned) -> int:
+        discard(self.q); discard(other.q)
+        return 1
+@guppy
+def regular() -> int:
+    v = V(qubit()); w = W(qubit())
+    return v + w
+@guppy.comptime
+def traced() -> int:
+    v = V(qubit()); w = W(qubit())
+    return v + w
+"""
+d = tempfile.mkdtemp(dir=os.environ.get("TMPDIR", "/var/tmp")); fn = os.path.join(d, "replay_c21x.py"); open(fn, "w").write(src)
+spec = importlib.util.spec_from_file_location("replay_c21x", fn); m = importlib.util.module_from_spec(spec); sys.modules["replay_c21x"] = m
+spec.loader.exec_module(m)
+res = {}
+for name in ("regular", "traced"):
+    try:
+        getattr(m, name).compile_function(); res[name] = "compiled"
+    except (GuppyError, GuppyComptimeError) as ex:
+        res[name] = "rejected: " + str(ex)[:100].replace(chr(10), " ")
+shutil.rmtree(d, ignore_errors=True)
+print(json.dumps({"violates": res["regular"] != res["traced"], "observed": res, "required": "v + w resolves to W.__radd__ in both modes"}))
+'''
+
+
 def trace_call_obligations(chk, tag=""):
     """trace_call (tracing/function.py): a call of a Guppy function from a comptime body.  After the call
     has been compiled, for EVERY borrowed parameter — whatever Python object was passed for it (traced
@@ -538,7 +581,7 @@ def trace_call_obligations(chk, tag=""):
         def from_py(it2, a, k2):
             arg = a[0]
             idx = args.index(arg) if isinstance(arg, SObj) else [j for j, x in enumerate(args) if x is arg][0]
-            o = SObj(OBJ, {"_ty": ("ty", idx), "src": arg})
+            o = SObj(OBJ, {"_ty": ("ty", idx), "src": arg, "_used": None, "_id": ("id", idx)})
             o.fields["_use_wire"] = Builtin("_use_wire", lambda f: ("wire-in", idx))
             return o
         e.models["guppylang_internals.tracing.unpacking:guppy_object_from_py"] = from_py
@@ -626,6 +669,44 @@ def trace_call_obligations(chk, tag=""):
             return z3.BoolVal(len(ups) == len(want) and all(u[1] is args[j] and u[2] == ty and u[3] == w for u, (j, ty, w) in zip(ups, want)))
         chk.prove_paths(f"{tag}trace_call[overloaded callee;flags-of-the-chosen-variant={','.join(flags)}]:borrowed-arguments-of-the-chosen-variant-are-updated", e.explore(t_ov), post_ov,
                         func=f"{FN}:trace_call", replay=lambda m_: {"script": REPLAY_TRACE_OVERLOAD, "input": {}})
+    # a call that does not type check has not used its arguments: their use marks (and the leak registry) are
+    # as before, so that e.g. the reflected operator can be tried on the same values next
+    for prior in ("unused", "used-before"):
+        for dro in (False, True):
+            def t_fail(it, prior=prior, dro=dro):
+                func, args = world(it, ("object", "object"), ("Owned", "Owned"), None)
+                st = e.models["guppylang_internals.tracing.state:get_tracing_state"](it, [], {})
+                GE = it.lookup_global(e.module("guppylang_internals.error"), "GuppyError")
+                objs = []
+                for j in range(2):
+                    o = SObj(OBJ, {"_ty": SObj(ClassVal("Ty", builtin=True), {"droppable": dro, "copyable": False, "j": j}), "_id": ("id", j), "_used": None if prior == "unused" else ("EARLIER-USE", j)})
+
+                    def use(f, o=o, j=j):
+                        o.fields["_used"] = ("USED-BY-THIS-CALL", j)
+                        st.fields["unused_undroppable_objs"].pop(("id", j), None)
+                        return ("wire-in", j)
+                    o.fields["_use_wire"] = Builtin("_use_wire", use)
+                    objs.append(o)
+                reg = {("id", j): objs[j] for j in range(2)} if (prior == "unused" and not dro) else {}
+                st.fields["unused_undroppable_objs"] = reg
+                e.models["guppylang_internals.tracing.unpacking:guppy_object_from_py"] = lambda it2, a, k2: objs[[x is a[0] for x in args].index(True)]
+
+                def failing(exprs, node, ctx):
+                    raise PyRaise(it.call(GE, [SObj(ClassVal("Diag"), {"kind": "does-not-type-check"})], {}))
+                func.fields["synthesize_call"] = Builtin("synthesize_call", failing)
+                it.ctx.ghost.update(objs=objs, st=st, want_reg=dict(reg))
+                return it.call(it.lookup_global(m, "trace_call"), [func, *args], {})
+
+            def post_fail(p, prior=prior):
+                g = p.ctx.ghost
+                ok = p.kind == "raise" and p.raised(e, "GuppyError")
+                for j, o in enumerate(g["objs"]):
+                    ok = ok and o.fields["_used"] == (None if prior == "unused" else ("EARLIER-USE", j))
+                reg = g["st"].fields["unused_undroppable_objs"]
+                ok = ok and set(reg.keys()) == set(g["want_reg"].keys()) and all(reg[k_] is g["want_reg"][k_] for k_ in reg)
+                return z3.BoolVal(bool(ok))
+            chk.prove_paths(f"{tag}trace_call[call-does-not-type-check;arguments-{prior};droppable={dro}]:the-error-propagates/\\use-marks-and-leak-registry-as-before", e.explore(t_fail), post_fail,
+                            func=f"{FN}:trace_call", replay=lambda m_: {"script": REPLAY_TRACE_REFLECTED, "input": {}})
     chk.record(f"{tag}trace_call:argument-shapes-explored", n >= 100, str(n), kind="reachability")
     chk.use_engine(e)
 
